@@ -1577,8 +1577,12 @@ func (c *checker) buildInstrumented(name string, flags []string) (string, bool, 
 	if out, err := cmd.CombinedOutput(); err != nil {
 		return "", false, "instrumenter does not build: " + tail(string(out), 500)
 	}
-	copyDir, err := os.MkdirTemp("", "verif-inst-")
-	if err != nil {
+	// a fixed path per binary: the Go build cache keys a replaced module's packages by
+	// their directory, so a fresh random directory per run adds a full set of cache
+	// entries every time (the cache had grown to 105 GB by the end of the build session)
+	copyDir := filepath.Join(os.TempDir(), "verif-inst-"+name)
+	os.RemoveAll(copyDir)
+	if err := os.MkdirAll(copyDir, 0o755); err != nil {
 		return "", false, err.Error()
 	}
 	defer os.RemoveAll(copyDir)
